@@ -373,15 +373,22 @@ func fnSort(ctx *cmdContext, args map[string]any) (output respValue, err error) 
 }
 
 func fnFlushAll(ctx *cmdContext, args map[string]any) (output respValue, err error) {
-	ctx.cs.dss.flushAll()
-	ctx.cs.selectDb(ctx.cs.selectedDb, true)
+	// every database is emptied in place, so that every connection (not only this
+	// one) reads and writes the flushed state from now on
+	for _, ds := range ctx.cs.dss.allDbs() {
+		if ds == ctx.dsc.ds {
+			ctx.dsc.flush()
+		} else {
+			ds.newDataStoreCommand().flush()
+		}
+	}
 	output.data = rstrOK
 	return
 }
 
 func fnFlushDb(ctx *cmdContext, args map[string]any) (output respValue, err error) {
-	ctx.cs.dss.flushDb(ctx.cs.selectedDb)
-	ctx.cs.selectDb(ctx.cs.selectedDb, true)
+	// the database is emptied in place (see fnFlushAll)
+	ctx.dsc.flush()
 	output.data = rstrOK
 	return
 }
